@@ -282,23 +282,31 @@ func newSvcDiscoveryClient(scope string, streamMaker svcDiscoveryStreamMaker) *s
 
 func (c *svcDiscoveryClient) Subscribe(svcName string) {
 	c.Lock()
-	defer c.Unlock()
 	_, ok := c.subscribed[svcName]
 	if ok {
+		c.Unlock()
 		return
 	}
 	c.subscribed[svcName] = struct{}{}
+	c.Unlock()
+
+	// NOTE: Don't send with the lock held. When the queue is full and no
+	// stream is up, the only one which drains it is resubscribe, and it
+	// needs the lock.
 	c.subCh <- svcName
 }
 
 func (c *svcDiscoveryClient) Unsubscribe(svcName string) {
 	c.Lock()
-	defer c.Unlock()
 	_, ok := c.subscribed[svcName]
 	if !ok {
+		c.Unlock()
 		return
 	}
 	delete(c.subscribed, svcName)
+	c.Unlock()
+
+	// NOTE: Don't send with the lock held, see Subscribe.
 	c.unsubCh <- svcName
 }
 
